@@ -33,7 +33,39 @@ def setup():
     got = os.path.realpath(basictdf.__file__)
     if not got.startswith(src + os.sep):
         raise SystemExit(f"harness error: basictdf imported from {got}, expected {src}")
+    _install_clock()
     _ready = True
+
+
+class _Clock:
+    base = 1_700_000_000
+    ticks = 0
+
+
+def _install_clock():
+    """Own `datetime.now()` inside the library: a deterministic clock that advances one second per
+    call (so that two things stamped by different calls get different dates, reproducibly).  Best
+    effort: a module that does not expose the name `datetime` is left alone; no oracle relies on it."""
+    import datetime as _dt
+    import importlib
+
+    class FakeDateTime(_dt.datetime):
+        @classmethod
+        def now(cls, tz=None):
+            _Clock.ticks += 1
+            return cls.fromtimestamp(_Clock.base + _Clock.ticks, tz)
+
+    for name in ("basictdf.basictdf", "basictdf.tdfBlock"):
+        try:
+            mod = importlib.import_module(name)
+            if getattr(mod, "datetime", None) is _dt.datetime:
+                mod.datetime = FakeDateTime
+        except Exception:  # noqa: BLE001
+            pass
+
+
+def reset_clock(ticks=0):
+    _Clock.ticks = ticks
 
 
 def cores():
